@@ -6,6 +6,8 @@ What is extracted (the hand model `Context/Model.lean` is *defined in terms of* 
   ctxOperands    operand order of the dict display in Logger.contextualize
   patchOperands  operand order of the list display in Logger.patch
   logPhases      relative order of `core.patcher(...)`, `for patcher in patchers`, `for handler in ...emit`
+  resetOn        the ways of leaving a contextualize block (normal / Exception / BaseException) that run
+                 `context.reset(token)`
   optDefaults    the defaults of opt()'s keyword-only parameters (checked equal to the root logger's
                  options in loguru/__init__.py, which also has patchers=[] and extra={})
 
@@ -13,8 +15,10 @@ What is only checked for shape (fail closed, nothing generated from it):
   * `context` is a module-level `ContextVar(..., default={})`, `ContextVar` comes from `._contextvars`,
     which returns `contextvars.ContextVar` for Python >= 3.7;
   * `contextualize` is a `contextlib.contextmanager` generator made of: (optionally under the core lock)
-    `token = context.set(<display>)`, then `try: yield  finally: context.reset(token)` (optionally under
-    the lock), no except handlers, nothing else;
+    `token = context.set(<display>)`, then a `try: yield` whose finally / else / `except [Base]Exception:
+    reset; raise` clauses each consist of `context.reset(token)` (optionally under the lock); WHICH ways of
+    leaving the block (normal, Exception, BaseException) reach a reset is generated as `resetOn` and the
+    theorems need all three;
   * `bind`, `patch`, `opt` unpack `_options` positionally and return ONE `Logger(self._core, ...)` call
     whose arguments are fresh displays / names in the `_options` order – no method call on, no
     subscript-store into, no augmented assignment to the receiver's containers;
@@ -272,11 +276,44 @@ def generate():
         if not stmts or not isinstance(stmts[-1], ast.Try):
             raise Unsupported("contextualize does not end with try/finally")
         pre, tr = stmts[:-1], stmts[-1]
-        if tr.handlers or tr.orelse or len(tr.body) != 1 or _u(tr.body[0]) != "yield":
-            raise Unsupported("contextualize: try body is not a bare `yield` / has handlers")
-        fin = unlock(tr.finalbody)
-        if len(fin) != 1 or _u(fin[0]) != "context.reset(token)":
-            raise Unsupported("contextualize: finally is not `context.reset(token)`: %r" % [_u(s) for s in fin])
+        if len(tr.body) != 1 or _u(tr.body[0]) != "yield":
+            raise Unsupported("contextualize: try body is not a bare `yield`")
+
+        def is_reset(stmts_):
+            return [_u(x) for x in unlock(stmts_)] == ["context.reset(token)"]
+        # which ways of leaving the block run `context.reset(token)`:
+        #   finally           -> normal, Exception, BaseException
+        #   else              -> normal
+        #   except Exception: reset; raise      -> Exception
+        #   except BaseException / bare except: reset; raise  -> Exception, BaseException
+        reset_on = []
+        if tr.finalbody:
+            if not is_reset(tr.finalbody):
+                raise Unsupported("contextualize: finally is not `context.reset(token)`: %r"
+                                  % [_u(x) for x in unlock(tr.finalbody)])
+            reset_on += ["ExitKind.normal", "ExitKind.exception", "ExitKind.baseException"]
+        if tr.orelse:
+            if not is_reset(tr.orelse):
+                raise Unsupported("contextualize: else branch is not `context.reset(token)`")
+            reset_on.append("ExitKind.normal")
+        caught = set()
+        for h in tr.handlers:
+            hb = unlock(h.body)
+            if h.name is not None or len(hb) != 2 or _u(hb[0]) != "context.reset(token)" or _u(hb[1]) != "raise":
+                raise Unsupported("contextualize: handler is not `except X: context.reset(token); raise`")
+            t = None if h.type is None else _u(h.type)
+            if t == "Exception":
+                kinds = ["ExitKind.exception"]
+            elif t in (None, "BaseException"):
+                kinds = ["ExitKind.exception", "ExitKind.baseException"]
+            else:
+                raise Unsupported("contextualize: handler for %s" % t)
+            reset_on += [k for k in kinds if k not in caught]   # an earlier handler wins
+            caught.update(kinds)
+        if len(set(reset_on)) != len(reset_on):
+            raise Unsupported("contextualize: some way of leaving the block resets the token twice: %r" % reset_on)
+        body += ("/-- `contextualize`: the ways of leaving the block after which `context.reset(token)` runs\n"
+                 "(try/finally: all of them) -/\ndef resetOn : List ExitKind := %s\n\n" % _lean_list(reset_on))
         display = None
         if len(pre) == 2 and isinstance(pre[0], ast.Assign) and len(pre[0].targets) == 1 \
                 and isinstance(pre[0].targets[0], ast.Name) \
